@@ -89,6 +89,7 @@ var c09Streams = []string{
 	"[1]\n[2]\n[3]\n[4]\n[5]\n[6]\n",
 	"{\"k\":\"" + strings.Repeat("x", 150) + "\"}\n[2]\n",     // a line longer than the (scaled) chunk and bufio buffers
 	"[" + strings.Repeat("1,", 11000) + "1]\n{\"after\":1}\n", // one dense 22 KB chunk (16 index buffers), then a small one
+	"\r\n{\"a\":1}\r\n\r\n[2]\r\n\r\n",                        // CR LF line ends with blank lines in front, between and behind
 }
 
 type c09Obs struct {
